@@ -162,6 +162,12 @@ def fold_static(tree):
                     else:
                         args.append(a)
                 node.args = args
+            # (lambda a, b: body)(x, y) -> body with a, b replaced: a function handed to a helper and applied there
+            if isinstance(node.func, ast.Lambda) and not node.keywords and not any(isinstance(a, ast.Starred) for a in node.args) \
+                    and len(node.args) == len(node.func.args.args) and not node.func.args.vararg and not node.func.args.kwarg \
+                    and not node.func.args.kwonlyargs:
+                return ast.copy_location(
+                    substitute(node.func.body, {p.arg: a for p, a in zip(node.func.args.args, node.args)}), node)
             # list.append(x, v) -> x.append(v): the unbound method of a built-in container applied to its receiver
             if isinstance(node.func, ast.Attribute) and isinstance(node.func.value, ast.Name) \
                     and node.func.value.id in ("list", "dict", "set") and node.args and not node.func.attr.startswith("__") \
